@@ -26,6 +26,8 @@ pub struct InstrInner {
     pub starts: AtomicU64,
     pub out_of_order: AtomicU64,
     pub min: Mutex<f64>,
+    /// whether the running minimum was returned for a solution outside the problem's domain
+    pub min_outside: std::sync::atomic::AtomicBool,
     /// 0 = no jitter
     pub jitter: AtomicU64,
 }
@@ -65,7 +67,13 @@ impl Instr {
     pub fn out_of_order(&self) -> u64 {
         self.0.out_of_order.load(Ordering::SeqCst)
     }
+    pub fn min_outside(&self) -> bool {
+        self.0.min_outside.load(Ordering::SeqCst)
+    }
     pub fn record(&self, sol_hash: u64, value: f64) {
+        self.record_with(sol_hash, value, false)
+    }
+    pub fn record_with(&self, sol_hash: u64, value: f64, outside: bool) {
         let start_idx = self.0.starts.fetch_add(1, Ordering::SeqCst);
         let j = self.0.jitter.load(Ordering::Relaxed);
         if j != 0 {
@@ -92,6 +100,7 @@ impl Instr {
         let mut m = self.0.min.lock().unwrap();
         if value < *m {
             *m = value;
+            self.0.min_outside.store(outside, Ordering::SeqCst);
         }
     }
 }
@@ -197,7 +206,8 @@ impl LimitedVectorProblem for RealP {
 impl ObjectiveFunction for RealP {
     fn objective(&self, solution: &Vec<f64>) -> SingleObjective {
         let v = self.f(solution);
-        self.instr.record(hash_f64s(solution), v);
+        let outside = solution.iter().zip(&self.domain).any(|(x, r)| *x < r.start || *x > r.end);
+        self.instr.record_with(hash_f64s(solution), v, outside);
         SingleObjective::try_from(v).unwrap()
     }
 }
